@@ -249,6 +249,51 @@ Proof.
 Qed.
 End SENugget.
 
+(* ------------------------------------------------------------------ pointwise posterior variance: non-negative before the floor *)
+Lemma psd_diag_ge0 k (A : 'M[R]_k) (i : 'I_k) : psd A -> Rle 0 (A i i).
+Proof. move=> /psd_mxv H. rewrite -(mxvE A i i). exact: (psd_diag_nonneg k (mxv A) i H (ltP (ltn_ord i))). Qed.
+
+Section SEVariance.
+Variables (n m dim : nat) (chol : 'M[R]_n -> 'M[R]_n) (xs xe : nat -> nat -> R) (ls lsq lcu : nat -> R) (alpha : R) (noise : 'cV[R]_n).
+Variable min_var : R.
+Hypothesis Halpha : Rle 0 alpha.
+Hypothesis Hnoise : forall i, Rle 0 (noise i 0).
+Let Kker := SE_Kker n dim xs ls lsq lcu alpha.
+Let K_eval := SE_K_eval n m dim xs xe ls lsq lcu alpha.
+Let Kss := SE_Kss m dim xe ls lsq lcu alpha.
+(* K_x_x_array = covariance(points_to_sample, points_to_sample): the pairwise entry point on (xe i, xe i) *)
+Definition SE_kxx : 'cV[R]_m := \col_i SquareExponential.covariance dim xe xe ls lsq lcu alpha i.
+
+Lemma SE_kxx_diag i : SE_kxx i 0 = Kss i i.
+Proof.
+  rewrite mxE SE_Kss_entry /SquareExponential.covariance /se_pair.
+  rewrite -/(d2w dim xe xe ls i i) d2w_diag sqrt_0.
+  have -> : bigsum dim (fun k => ((xe i k / ls k - xe i k / ls k) ^ 2)%Re) = 0%Re.
+    rewrite (bigsum_ext dim _ (fun _ => 0%Re)); first exact: bigsum_zero.
+    move=> k _. rewrite /Rminus Rplus_opp_r. ring.
+  congr (alpha * exp (_ * _))%Re. ring.
+Qed.
+
+Let K := GPNoise.kernel_matrix Kker noise.
+Hypothesis cholK : chol K *m (chol K)^T = K.
+Hypothesis cholu : chol K \in unitmx.
+
+Theorem SE_posterior_variance :
+  let v := SE_kxx - diagcol (K_eval *m invmx K *m K_eval^T) in
+  GPNoise.var_tri chol Kker noise K_eval SE_kxx min_var = floor_at min_var v /\
+  (forall i, v i 0 = GPNoise.cov chol Kker noise K_eval Kss i i) /\
+  (forall i, Rle 0 (v i 0)).
+Proof.
+  move=> v. split; first exact: (@noise_var_closed_form _ _ _ chol _ _ K_eval SE_kxx min_var cholK cholu).
+  have Hd i : v i 0 = GPNoise.cov chol Kker noise K_eval Kss i i.
+    rewrite (@noise_cov_closed_form _ _ _ chol _ _ K_eval Kss cholK cholu) /v [LHS]mxE SE_kxx_diag [RHS]mxE.
+    congr (_ + _). rewrite [LHS]mxE [RHS]mxE. congr (- _). by rewrite [LHS]mxE.
+  split; first exact: Hd. move=> i. rewrite Hd. apply: psd_diag_ge0.
+  have [_ [_ [Hc _]]] := @SE_posterior_cov_psd n m dim chol xs xe ls lsq lcu alpha noise Halpha Hnoise cholK cholu.
+  exact: Hc.
+Qed.
+End SEVariance.
+
 (* ------------------------------------------------------------------ the hypotheses are satisfiable: one observation, any number of queries *)
 Section Instance.
 Definition chol11 (A : 'M[R]_1) : 'M[R]_1 := (sqrt (A 0 0))%:M.
